@@ -56,6 +56,17 @@ def check_registry(run, tree):
     run.ob("units/units.py::UnitRegistry-construction", ok, sites[0][0].where(sites[0][1]) if sites and sites[0][0] else "units/units.py",
            "%d registry constructions: %s" % (len(sites), [s[0].qual if s[0] else "module level" for s in sites]),
            "units from two registries never compare equal and cannot be converted into each other")
+    # quantities and units are made BY the registry (ureg(...), ureg.Quantity, k * unit): the module-level classes pint.Quantity / pint.Unit
+    # build objects of pint's own application registry, which cannot be combined with osyris' units and know none of its constants
+    foreign = []
+    for fi in tree.all_functions():
+        for n in walk_no_nested(fi.node):
+            if isinstance(n, ast.Call) and tree.dotted(fi.module, n.func) in ("pint.Quantity", "pint.Unit", "pint.Measurement", "pint.quantity.Quantity", "pint.unit.Unit"):
+                foreign.append((fi, n))
+    run.ob("units/units.py::quantities-made-by-the-registry", not foreign, foreign[0][0].where(foreign[0][1]) if foreign else "units/units.py",
+           ("%d direct constructions of pint.Quantity / pint.Unit: %s" % (len(foreign), [f.qual for f, _ in foreign])) if foreign else
+           "no direct construction of pint.Quantity / pint.Unit in the package (isinstance tests aside)",
+           "a Quantity built with the generic class belongs to pint's default registry: converting it to a unit defined by osyris (M_sun, R_jup, ar) fails")
     # exactly one Units() instance at module level, exported as `units`
     mi = tree.module("units/units.py")
     ucls = tree.cls("units/units.py::Units")
